@@ -114,6 +114,9 @@ func withMode(rt *rapid.T, c *EWCase, mode string, d DT) *EWCase {
 			c.A.L = Layout{Root: "rm"}
 		}
 	}
+	if k := rapid.IntRange(0, 11).Draw(rt, "pre"); k < 3 {
+		c.Pre = []string{"reuse-dtype", "incr-dtype", "reuse-size"}[k]
+	}
 	if c.Mode == "reuseAx" && !(len(c.A.L.Steps) == 1 && c.A.L.Steps[0].Op == "pick" && c.A.L.Final == "") {
 		c.Mode = "reuseA"
 	}
